@@ -276,6 +276,22 @@ pub fn check_c04(seed: u64, i: usize) -> DefReport {
         _ => gen::mixed(&mut rng, &name, i / 4),
     };
     def.utf8 = true;
+    if i % 5 == 2 {
+        // non-UTF-8 candidates in every position: token, regex, skip (plain and with arguments)
+        let cands: &[&[u8]] = &[b"\xC3", b"\xFF", b"a\x80", b"(?-u:.)", b"(?-u:[^a])", b"(?-u:[\\x80-\\xBF])+", b"\xE2\x82", b"(?s-u:.)", b"(?-u:\\xC3)"];
+        let c: &[u8] = *rng.pick(cands);
+        let lit = if std::str::from_utf8(c).is_ok() && rng.chance(1, 2) { vmon::spec::Lit::s(std::str::from_utf8(c).unwrap()) } else { vmon::spec::Lit::b(c) };
+        let kind = match rng.below(3) { 0 => PatKind::Skip, 1 => PatKind::Regex, _ => PatKind::Token };
+        let mut p = vmon::spec::Pat::new(kind, lit, 0);
+        if kind == PatKind::Skip && rng.chance(1, 2) {
+            p.priority = Some(rng.range(1, 60));
+        }
+        if kind != PatKind::Skip {
+            p.priority = Some(60 + rng.below(30));
+        }
+        def.push(p);
+        def.normalize();
+    }
     if i % 8 == 1 {
         // an unused or used non-UTF-8 subpattern
         let t: &[u8] = *rng.pick(&[&b"\xFF"[..], &b"a|\xC3"[..], &b"[^a]"[..], &b"."[..], &b"\xE2\x82\xAC"[..], &b"(?s:.)"[..]]);
@@ -376,7 +392,16 @@ pub fn check_c08(seed: u64, i: usize) -> DefReport {
         rep.sample = Some(def_sample(&def, &a, &rep));
         return rep;
     }
-    let prio = g.priorities();
+    // priorities as the user wrote them: explicit ones as given, token defaults by the documented
+    // rule (2 x bytes); only default regex priorities are taken from the capture (their rule is C09's)
+    let mut prio = g.priorities();
+    for (leaf, p) in def.pats.iter().enumerate() {
+        if let Some(e) = p.priority {
+            prio[leaf] = e;
+        } else if p.kind == PatKind::Token {
+            prio[leaf] = 2 * p.lit.data.len();
+        }
+    }
     let (groups, tuples, capped) = product::reference_ambiguities(&reference, &prio, PRODUCT_CAP);
     rep.tuples = tuples;
     if capped {
@@ -610,13 +635,21 @@ pub fn check_c11(seed: u64, i: usize) -> DefReport {
 pub fn check_c12(seed: u64, i: usize) -> DefReport {
     let mut rng = Rng::derive(seed ^ 0xC12, i as u64);
     let name = format!("D{i}");
-    let mut def = match i % 4 {
+    let mut def = match i % 5 {
         0 => gen::f3_unicode(&mut rng, &name),
         1 => gen::f1_soup(&mut rng, &name),
         2 => gen::f2_keywords(&mut rng, &name),
+        3 => gen::f10_subpat(&mut rng, &name),
         _ => gen::f6_loops(&mut rng, &name),
     };
     def.utf8 = true;
+    if i % 5 == 3 && rng.chance(1, 2) {
+        // a str-literal subpattern whose meaning depends on its own Unicode mode
+        let t = rng.pick_str(&["\\w+", "[^x]", ".", "\\pL", "[^\\x00-\\x7F]+", "(?i)k", "\\S"]);
+        def.subpats.push((format!("uni{i}"), vmon::spec::Lit::s(t)));
+        def.push(vmon::spec::Pat::regex(&format!("#(?&uni{i})"), 0).prio(70 + rng.below(9)));
+        def.normalize();
+    }
     let a = analyze::run_generate(&def);
     let mut rep = base_report(&def, &a);
     let mut twin = def.clone();
